@@ -80,14 +80,16 @@ def matchingInRangeUnless (f : List α) (ix : Index) (cs : List Cls) (a b : Opti
   let le := (ix.pairIndexes a b).2
   singles f ix (filterUnless ix (sortNat ((ls.zip le).flatMap fun se => cs.flatMap fun c => ix.getBetween c.uid se.1 se.2)) un)
 
-/-! ### get_n_tokens_before_and_after_tokens_bounded_by_tokens (3 rules) -/
+/-! ### get_n_tokens_before_and_after_tokens_bounded_by_tokens (3 rules): like its unbounded sibling, a
+    matched token with fewer than `iToken` tokens in front of it gets no region (`if iStart >= 0`, repaired) -/
 
 def nBeforeAndAfterBounded (f : List α) (ix : Index) (n : Nat) (cs : List Cls) (a b : Option Key) :
     Except PyErr (List (Toi α)) :=
-  mapE (fun (i : Nat) =>
+  filterMapE (fun (i : Nat) =>
     ix.lineOf i >>= fun line =>
-    pure { start := some ((i : Int) - (n : Int)), line := line,
-           toks := pySlice f ((i : Int) - (n : Int)) ((i : Int) + (n : Int) + 1) }) (filterBetween ix cs a b)
+    let s : Int := (i : Int) - (n : Int)
+    if s ≥ 0 then pure (some { start := some s, line := line, toks := pySlice f s ((i : Int) + (n : Int) + 1) })
+    else pure none) (filterBetween ix cs a b)
 
 /-! ### get_line_which_includes_tokens (2 rules).  `value` = the attribute `token_index`.  On the
     first line `get_index_of_carriage_return_before_index` returns the position itself, so the
